@@ -43,10 +43,10 @@ def parse_nk(text):
     return info
 
 
-def write_fasta(path, recs, wrap=None, names=None, gz=False):
+def write_fasta(path, recs, wrap=None, names=None, gz=False, crlf=False, header_extra=""):
     out = []
     for i, r in enumerate(recs):
-        out.append(">" + (names[i] if names else f"r{i}"))
+        out.append(">" + (names[i] if names else f"r{i}") + header_extra)
         if wrap:
             for j in range(0, len(r), wrap):
                 out.append(r[j:j + wrap])
@@ -54,7 +54,8 @@ def write_fasta(path, recs, wrap=None, names=None, gz=False):
                 out.append("")
         else:
             out.append(r)
-    data = ("\n".join(out) + "\n").encode()
+    eol = "\r\n" if crlf else "\n"
+    data = (eol.join(out) + eol).encode()
     if gz:
         with gzip.open(path, "wb") as f:
             f.write(data)
@@ -251,6 +252,8 @@ def c02_cli(ctx, broken):
             write_fasta(f, recs)
             files.append(f)
         ref = build_and_nk(ctx, d, k, rc, files)
+        if ref["status"] != "ok" and "has no valid sequence" in (ref.get("stderr") or ""):
+            continue     # a sample without any split k-mer (N placed in a short record): build refuses it, nothing to compare
         evals += 1
         if ref["status"] != "ok":
             return {"summary": {"evaluations": evals, "nontrivial": nontriv},
@@ -276,18 +279,42 @@ def c02_cli(ctx, broken):
                 recs2 = [revcomp(r) if rnd.random() < 0.5 else r for r in recs2]
             gz = rnd.random() < 0.5
             wrap = rnd.choice([None, 1, 7, 60, 10 ** 6])
-            f = os.path.join(d2, f"s{si}.fa" + (".gz" if gz else ""))
-            write_fasta(f, recs2, wrap=wrap, gz=gz)
+            crlf = rnd.random() < 0.3
+            extra = rnd.choice(["", " a description with spaces", "\tx=1"])
+            # file names: the sample name is the file name without directory and without a final
+            # .fa/.fasta/.fastq/.fastq.gz (any case); anything else is kept whole
+            stem = rnd.choice([f"s{si}", f"smp.{si}.v2", f"S_{si}-x"])
+            ext = rnd.choice([".fa", ".fasta", ".FA", ".Fasta"]) + (".gz" if gz else "")
+            sub = os.path.join(d2, rnd.choice(["", "sub.dir"]))
+            os.makedirs(sub, exist_ok=True)
+            f = os.path.join(sub, stem + ext)
+            write_fasta(f, recs2, wrap=wrap, gz=gz, crlf=crlf, header_extra=extra)
             files2.append(f)
-            how.append({"gz": gz, "wrap": wrap})
+            how.append({"gz": gz, "wrap": wrap, "crlf": crlf, "file": os.path.relpath(f, d2)})
         order = list(range(nsamp))
         rnd.shuffle(order)
-        alt = build_and_nk(ctx, d2, k, rc, [files2[i] for i in order])
+        use_list = rnd.random() < 0.4
+        if use_list:
+            # a two-column file list: the names are given, not derived
+            lst = os.path.join(d2, "list.tsv")
+            open(lst, "w").write("".join(f"given{i}{rnd.choice([chr(9), ' ', '  '])}{files2[i]}\n" for i in order))
+            alt = build_and_nk(ctx, d2, k, rc, [], extra=["-f", lst])
+            want_names = [f"given{i}" for i in order]
+        else:
+            alt = build_and_nk(ctx, d2, k, rc, [files2[i] for i in order])
+            want_names = []
+            for i in order:
+                mm = re.match(r"^.+/(.+)\.(?i:fa|fasta|fastq|fastq\.gz)$", files2[i]) or re.match(r"^(.+)\.(?i:fa|fasta|fastq|fastq\.gz)$", files2[i])
+                want_names.append(mm.group(1) if mm else files2[i])
         evals += 1
         if alt["status"] != "ok":
             return {"summary": {"evaluations": evals, "nontrivial": nontriv},
                     "violation": {"kind": "c02-transform", "what": "transformed build failed", "detail": alt.get("stderr"), "how": how, "k": k, "rc": rc, "samples": per_sample}}
         names1, table1 = nk_table(alt)
+        if names1 != want_names:
+            return {"summary": {"evaluations": evals, "nontrivial": nontriv},
+                    "violation": {"kind": "c02-transform", "what": "sample names are not those of the files / the file list, in input order", "how": how, "order": order,
+                                  "expected": want_names, "observed": names1, "k": k, "rc": rc, "samples": per_sample}}
         # names: sN.fa.gz is not stripped by the name regex (only .fa/.fasta/.fastq/.fastq.gz) -> compare columns by position
         permuted = {key: "".join(cells[order.index(i)] for i in range(nsamp)) for key, cells in table1.items()}
         if permuted != table0:
@@ -447,6 +474,15 @@ def c11_cli(ctx, broken):
         write_fasta(reffile, [base[:L // 2], base[L // 2:]], names=["c1", "c2"])
         loref = os.path.join(d, "loref.fa")   # ska lo wants a single-sequence reference
         write_fasta(loref, [base], names=["g"])
+        # a second reference in which the (k-1)-mers left of two sites occur three times (several wrong
+        # anchor positions with equal votes: the positioning must not depend on the order it sees them)
+        rep_ref = base
+        for p_ in sites[:2]:
+            if p_ - (k - 1) >= 0:
+                flank = base[p_ - (k - 1):p_]
+                rep_ref += rand_genome(rnd, 23) + flank + rand_genome(rnd, 17) + flank
+        loref2 = os.path.join(d, "loref2.fa")
+        write_fasta(loref2, [rep_ref], names=["g"])
         base_out = {}
         for t in threads_set:
             for rep in range(reps):
@@ -494,6 +530,11 @@ def c11_cli(ctx, broken):
                     p = lo_prefix + suffix
                     lo[suffix] = open(p).read() if os.path.exists(p) else None
                 cur["lo_ref"] = lo
+                lo_prefix2 = os.path.join(d, "lo2_" + tag)
+                code, out, err = run_ok(["lo", skf, lo_prefix2, "-r", loref2, "--threads", str(t)], d)
+                evals += 1
+                cur["lo_ref_repeats"] = {suffix: (open(lo_prefix2 + suffix).read() if os.path.exists(lo_prefix2 + suffix) else None)
+                                         for suffix in ["_snps.fas", "_snps.vcf", "_indels.vcf", "_pseudo_genomes.fas"]} if code == 0 else "failed"
                 # reference-free ska lo: the same columns / indel records up to order and strand
                 for extra, lname in (([], "lo_free"), (["-m", "0.5"], "lo_free_m")):
                     fp = os.path.join(d, lname + "_" + tag)
@@ -641,14 +682,35 @@ def c19_cli(ctx, broken):
     thorough = ctx.tier == "thorough"
     # (w, k, samples, rows, byte stride); the third file has many random 64-bit k-mers and one
     # sample, so the encoder stores its block uncompressed (chunk type 0x01, CRC over raw data)
-    files = [(64, 7, 12, 60, 1), (128, 41, 2, 15, 1), (64, 31, 1, 90, 1)]
+    # (w, k, samples, rows, byte stride, tail): `tail` restricts the faults to the last bytes
+    files = [(64, 7, 12, 60, 1, 0), (128, 41, 2, 15, 1, 0), (64, 31, 1, 90, 1, 0),
+             # several frames, every fault in the trailing frame; the row counts put the 64 KiB frame
+             # boundary into different fields of the serialised struct (k-mers / bases / counts)
+             (64, 31, 2, "boundary-in-counts", 1, 160)]
     if thorough:
-        files += [(64, 7, 4, 60, 1), (128, 63, 3, 40, 1), (64, 31, 3, 4500, 9)]   # the last one spans several frames
+        files += [(64, 7, 4, 60, 1, 0), (128, 63, 3, 40, 1, 0), (64, 31, 3, 4500, 9, 0), (128, 41, 2, 6000, 1, 1500),
+                  (64, 31, 3, "boundary-in-bases", 1, 400), (64, 31, 4, "boundary-in-counts", 1, 600)]
     evals = nontriv = 0
     samples = []
     chunk_types = []
-    for (w, k, nsamp, nrows, stride) in files:
-        case = f"skfaults w={w} k={k} rc=1 stride={stride} table={rand_table_text(rnd, k, nsamp, nrows)}"
+    for (w, k, nsamp, nrows, stride, tail) in files:
+        if isinstance(nrows, str):
+            # size the table so that the 64 KiB boundary between the two compression frames falls into
+            # the per-k-mer count array (the last array of the struct) or into the bases array
+            n = 4600
+            table = None
+            for _try in range(8):
+                table = rand_table_text(rnd, k, nsamp, n)
+                raw = kvs(core.run_impl(ctx, [f"skf w={w} k={k} rc=1 table={table}"], "c19s")[0])["hex"]
+                U = len(raw) // 2
+                nr = table.count(":")          # rows actually generated (duplicates are dropped)
+                target = 65536 + (nr // 2 if nrows == "boundary-in-counts" else nr + nsamp * nr)
+                if abs(U - target) < nr // 3:
+                    break
+                n = max(100, int(n * target / U))
+            case = f"skfaults w={w} k={k} rc=1 stride={stride} tail={tail} table={table}"
+        else:
+            case = f"skfaults w={w} k={k} rc=1 stride={stride}{f' tail={tail}' if tail else ''} table={rand_table_text(rnd, k, nsamp, nrows)}"
         r = core.run_impl(ctx, [case], "c19")[0]
         ri = kvs(r)
         chunk_types.append(int(ri["file"][20:22], 16) if len(ri["file"]) > 22 else -1)
@@ -982,6 +1044,7 @@ def c20_cli(ctx, broken):
     #    every other pair is a synthetic boundary set: reads of exactly k bases (one split k-mer
     #    each) replicated so that the multiplicity histogram has bins of exactly 49 / 50 / 51
     npairs = 40 if thorough else 6
+    capped_seen = False
     for it in range(npairs):
         # both integer widths and both strand modes in every run (the Cov dispatch of lib.rs has one
         # branch per width), with and without -v
@@ -1006,6 +1069,13 @@ def c20_cli(ctx, broken):
             if not r2:
                 r2.append(r1.pop())
             cov, err = 0.0, 0.0
+        elif it % 6 == 4:
+            # a target so small that no multiplicity of the coverage peak is shared by 50 k-mers: the table
+            # holds the error bins only and the cutoff is capped at its length (the last row is then Coverage)
+            genome = rand_genome(rnd, rnd.randint(450, 700))
+            cov = rnd.uniform(60, 90)
+            err = rnd.uniform(0.015, 0.03)
+            r1, r2 = make_reads(rnd, genome, cov, err, rnd.randint(80, 100))
         else:
             genome = rand_genome(rnd, rnd.randint(1200, 2200))
             cov = rnd.uniform(10, 80)
@@ -1013,6 +1083,17 @@ def c20_cli(ctx, broken):
             r1, r2 = make_reads(rnd, genome, cov, err, rnd.randint(60, 100))
         line = f"cov w={w} k={k} rc={int(rc)} r1={','.join(r1)} r2={','.join(r2)}"
         r = kvs(core.run_impl(ctx, [line], "c20c")[0])
+        if it % 6 == 4:
+            # insist on a capped cutoff (cutoff = number of table rows): redraw a few times if needed
+            for _redo in range(8):
+                rows_n = 0 if r.get("hist", "~") == "~" else len(r["hist"].split(","))
+                if r.get("fit") == "ok" and rows_n > 0 and r.get("cutoff") == str(rows_n):
+                    break
+                genome = rand_genome(rnd, rnd.randint(450, 700))
+                r1, r2 = make_reads(rnd, genome, rnd.uniform(60, 90), rnd.uniform(0.015, 0.03), rnd.randint(80, 100))
+                line = f"cov w={w} k={k} rc={int(rc)} r1={','.join(r1)} r2={','.join(r2)}"
+                r = kvs(core.run_impl(ctx, [line], "c20c")[0])
+            capped_seen = capped_seen or (r.get("fit") == "ok" and r.get("cutoff") == str(0 if r.get("hist", "~") == "~" else len(r["hist"].split(","))))
         evals += 1
         allreads = [x.split(":")[0] for x in r1 + r2]
         w0b = r.get("w0", "%" + f2b(0.8)).lstrip("%")
@@ -1709,6 +1790,35 @@ def out_prefix(d, stem, style):
     return pref, (pref if name.endswith(".skf") else pref + ".skf")
 
 
+def freq_text(t, n, style, rounding):
+    """a --min-freq value, as typed text, for which the code's own formula (ceil or floor of
+    n * f in double arithmetic, which Python shares) gives the sample threshold t: the decimal
+    fractions a user types, on and next to the rounding boundaries, not only mid-interval values"""
+    fn = math.ceil if rounding == "ceil" else math.floor
+    if t == 0 and rounding == "ceil":
+        return "0"
+    if n == 0:
+        return "0"
+    cands = []
+    for digits in (1, 2, 3):
+        for x in range(0, 10 ** digits + 1):
+            txt = f"{x / 10 ** digits:.{digits}f}"
+            if fn(n * float(txt)) == t:
+                cands.append(txt)
+                break                      # the smallest value of this precision
+        for x in range(10 ** digits, -1, -1):
+            txt = f"{x / 10 ** digits:.{digits}f}"
+            if fn(n * float(txt)) == t:
+                cands.append(txt)
+                break                      # the largest value of this precision
+    mid = min(1.0, (t - 0.5) / n) if rounding == "ceil" else min(1.0, (t + 0.5) / n)
+    if fn(n * mid) == t:
+        cands.append(repr(mid))
+    if not cands:
+        return repr(mid)
+    return cands[style % len(cands)]
+
+
 def hist_via_cli(ctx, line):
     """execute one `hist` case line through the ska binary; returns the canonical result string"""
     kv = kvs(line)
@@ -1790,8 +1900,8 @@ def hist_via_cli(ctx, line):
                 code, out, err = ska(["nk", cur], d)
                 n = len(parse_nk(out).get("names", []))
                 tf = int(f[3])
-                mf = 0.0 if tf == 0 else min(1.0, (tf + 0.5) / n)
-                args += ["--min-freq", repr(mf), "--filter", CLI_FT[f[5]]]
+                mf = freq_text(tf, n, blank_style + step, "floor")
+                args += ["--min-freq", mf, "--filter", CLI_FT[f[5]]]
                 if f[2] == "1":
                     args.append("--reverse")
                 if f[4] == "1":
@@ -1834,8 +1944,8 @@ def hist_via_cli(ctx, line):
             out_parts.append(f"nk[{dump};counts={counts}]")
         elif f[0] == "align":
             t = int(f[1])
-            mf = 0.0 if t == 0 or n == 0 else min(1.0, (t - 0.5) / n)
-            args = ["align", cur, "--min-freq", repr(mf), "--filter", CLI_FT[f[2]]]
+            mf = freq_text(t, n, blank_style + len(out_parts), "ceil")
+            args = ["align", cur, "--min-freq", mf, "--filter", CLI_FT[f[2]]]
             if f[3] == "1":
                 args.append("--ambig-mask")
             if f[4] == "1":
@@ -1851,8 +1961,8 @@ def hist_via_cli(ctx, line):
             out_parts.append(f"align[names={','.join(names) or '~'};cols={','.join(cols) or '~'}]")
         elif f[0] == "dist":
             t = int(f[1])
-            mf = 0.0 if t == 0 or n == 0 else min(1.0, (t - 0.5) / n)
-            args = ["distance", cur, "--min-freq", repr(mf)] + ([] if f[2] == "1" else ["--allow-ambiguous"])
+            mf = freq_text(t, n, blank_style + len(out_parts) + 1, "ceil")
+            args = ["distance", cur, "--min-freq", mf] + ([] if f[2] == "1" else ["--allow-ambiguous"])
             code, o, e = ska_out(args, d, names_style + len(out_parts), ["--threads", "2"] if blank_style == 6 else [])
             items = []
             for l in o.splitlines()[1:]:
@@ -2023,6 +2133,130 @@ def c12_cli(ctx, broken):
     return {"summary": {"evaluations": evals, "nontrivial": nontriv, "options": opts,
                         "what": "read cases through `ska build -f` with --min-count/--min-qual/--qual-filter and `ska nk --full-info`, k <= 31 and k >= 33, vs model and counting specification"},
             "samples": samples}
+
+
+def freq_sweep_cli(ctx, broken):
+    """--min-freq on its rounding boundaries: for every sample count n = 2..12 a table with one row
+    per presence count c = 1..n; `ska align --min-freq f` must keep exactly the rows with
+    c >= max(1, ceil(n*f)), `ska weed --min-freq f` those with c >= floor(n*f), `ska distance
+    --min-freq f` must count mismatching presence only over rows with c >= ceil(n*f) -- for the
+    decimal fractions a user types (tenths, quarters, thirds, 0.29, 0.58, ...)"""
+    rnd = random.Random(ctx.seed * 472882027 + 3)
+    thorough = ctx.tier == "thorough"
+    fracs = ["0", "0.1", "0.2", "0.25", "0.29", "0.3", "0.33", "0.334", "0.4", "0.5", "0.58", "0.6", "0.67", "0.7", "0.75", "0.8", "0.9", "0.95", "1"]
+    evals = nontriv = 0
+    for n in range(2, 13):
+        k = rnd.choice([9, 15, 31, 33])
+        w = 64 if k <= 31 else 128
+        rows = {}
+        while len(rows) < n:
+            arms = rand_genome(rnd, k - 1)
+            if arms == revcomp(arms):
+                continue
+            rows[min(pack(arms), pack(revcomp(arms)))] = len(rows) + 1     # presence count of this row
+        base = rnd.choice("ACGT")
+        table = ",".join(f"s{i}" for i in range(n)) + "|" + ",".join(
+            f"{key}:{''.join(base if i < c else '-' for i in range(n))}" for key, c in rows.items())
+        d = fresh_dir(ctx, "freqsweep")
+        skf = os.path.join(d, "x.skf")
+        core.run_impl(ctx, [f"mkskf w={w} k={k} rc=1 table={table} out={skf}"], "mk")
+        for f in (fracs if thorough or n in (5, 7, 10) else rnd.sample(fracs, 6)):
+            t_ceil, t_floor = math.ceil(n * float(f)), math.floor(n * float(f))
+            code, out, err = ska(["align", skf, "--min-freq", f, "--filter", "no-filter"], d)
+            evals += 1
+            seqs = [l for l in out.splitlines() if not l.startswith(">")]
+            got = len(seqs[0]) if seqs else 0
+            want = sum(1 for c in rows.values() if c >= max(1, t_ceil))
+            if code != 0 or got != want:
+                return {"summary": {"evaluations": evals, "nontrivial": nontriv},
+                        "violation": {"kind": "freq-sweep", "what": "ska align keeps the wrong rows for this --min-freq", "samples": n, "min_freq": f,
+                                      "threshold": max(1, t_ceil), "columns": got, "expected_columns": want, "k": k}}
+            wout = os.path.join(d, "w.skf")
+            code, out, err = ska(["weed", skf, "--min-freq", f, "-o", wout], d)
+            evals += 1
+            kept = len(parse_nk(ska(["nk", "--full-info", wout], d)[1]).get("rows", {})) if code == 0 else -1
+            want = sum(1 for c in rows.values() if c >= t_floor)
+            if kept != want:
+                return {"summary": {"evaluations": evals, "nontrivial": nontriv},
+                        "violation": {"kind": "freq-sweep", "what": "ska weed keeps the wrong rows for this --min-freq", "samples": n, "min_freq": f,
+                                      "threshold": t_floor, "rows": kept, "expected_rows": want, "k": k}}
+            # distance between the first and the last sample: they differ in presence on the rows with c < n
+            code, out, err = ska(["distance", skf, "--min-freq", f], d)
+            evals += 1
+            line = [l.split("\t") for l in out.splitlines()[1:] if l.startswith("s0\t" + f"s{n - 1}\t")]
+            counted = [c for c in rows.values() if c >= t_ceil]
+            want_mis = (sum(1 for c in counted if c < n) / len(counted)) if counted else 0.0
+            if code != 0 or not line or abs(float(line[0][3]) - want_mis) > 6e-6:
+                return {"summary": {"evaluations": evals, "nontrivial": nontriv},
+                        "violation": {"kind": "freq-sweep", "what": "ska distance computes the mismatch proportion over the wrong rows for this --min-freq", "samples": n,
+                                      "min_freq": f, "threshold": t_ceil, "observed": (line[0][3] if line else None), "expected": round(want_mis, 5), "k": k}}
+            nontriv += 1
+    return {"summary": {"evaluations": evals, "nontrivial": nontriv,
+                        "what": "--min-freq rounding boundaries: n = 2..12 samples x typed decimal fractions through ska align (ceil, at least 1), ska weed (floor) and ska distance (ceil)"},
+            "samples": []}
+
+
+def route_cli(ctx, broken):
+    """sequence files given directly to `ska align` / `ska map` are built in memory with the defaults
+    of `ska build`; the result must be that of `ska build` (defaults) + the saved file, for FASTA and
+    for FASTQ input (where the default read filters -- count 5, quality 20, strict -- must apply)"""
+    rnd = random.Random(ctx.seed * 15485867 + 77)
+    thorough = ctx.tier == "thorough"
+    evals = nontriv = 0
+    for it in range(6 if thorough else 2):
+        d = fresh_dir(ctx, "route")
+        genome = rand_genome(rnd, 400)
+        fastq = (it % 2 == 0)
+        files = []
+        for si in range(2):
+            g = mutate(rnd, genome, 2)
+            if fastq:
+                reads = []
+                for _r in range(int(len(g) * 14 / 90)):
+                    q0 = rnd.randrange(len(g) - 90 + 1)
+                    sq = g[q0:q0 + 90]
+                    reads.append((revcomp(sq) if rnd.random() < 0.5 else sq, "I" * 90))          # Q40 throughout
+                # reads whose k-mers stay below the default count of 5, and reads of quality 2
+                reads += [(mutate(rnd, g[40:130], 3), "I" * 90), (mutate(rnd, g[150:240], 2), "#" * 90)] * 2
+                fp = os.path.join(d, f"s{si}.fastq")
+                with open(fp, "w") as f:
+                    for i, (sq, q) in enumerate(reads):
+                        f.write(f"@r{i}\n{sq}\n+\n{q}\n")
+            else:
+                fp = os.path.join(d, f"s{si}.fa")
+                write_fasta(fp, [g])
+            files.append(fp)
+        ref = os.path.join(d, "ref.fa")
+        write_fasta(ref, [genome])
+        code, out, err = ska(["build", "-o", os.path.join(d, "x")] + files, d)
+        if code != 0:
+            return {"summary": {"evaluations": evals, "nontrivial": nontriv},
+                    "violation": {"kind": "route", "what": "ska build with default options failed on the generated input", "input": "fastq" if fastq else "fasta", "stderr": err[-300:]},
+                    "no_input": True}
+        skf = os.path.join(d, "x.skf")
+        for name, direct, saved in (("align", ["align"] + files + ["--filter", "no-filter", "--min-freq", "0"], ["align", skf, "--filter", "no-filter", "--min-freq", "0"]),
+                                    ("map", ["map", ref] + files, ["map", ref, skf]),
+                                    ("map-vcf", ["map", ref] + files + ["-f", "vcf"], ["map", ref, skf, "-f", "vcf"])):
+            c1, o1, e1 = ska(direct, d)
+            c2, o2, e2 = ska(saved, d)
+            evals += 1
+            canon = (lambda o: sorted(o.splitlines())) if name == "align" else (lambda o: [l for l in o.splitlines() if not l.startswith("##")])
+            if name == "align":
+                # columns in hash order: compare the multiset of columns
+                def cols(o):
+                    sq = [l for l in o.splitlines() if not l.startswith(">")]
+                    return sorted("".join(x[i] for x in sq) for i in range(len(sq[0]))) if sq and sq[0] else []
+                same = (c1 == c2) and cols(o1) == cols(o2) and [l for l in o1.splitlines() if l.startswith(">")] == [l for l in o2.splitlines() if l.startswith(">")]
+            else:
+                same = (c1 == c2) and canon(o1) == canon(o2)
+            if not same:
+                return {"summary": {"evaluations": evals, "nontrivial": nontriv},
+                        "violation": {"kind": "route", "what": f"ska {name} on sequence files differs from ska build + ska {name} on the saved file", "input": "fastq" if fastq else "fasta",
+                                      "direct_lines": len(o1.splitlines()), "saved_lines": len(o2.splitlines())}}
+        nontriv += 1
+    return {"summary": {"evaluations": evals, "nontrivial": nontriv,
+                        "what": "in-memory route (sequence files given to align / map) vs saved route (build with defaults, then the .skf), FASTA and FASTQ input"},
+            "samples": []}
 
 
 def make_hist_cli(prop, nquick, nthorough, gen_prop=None):
